@@ -346,10 +346,18 @@ pub proof fn lemma_stake_changed_swf(sm: St, s1: St, d: Addr, v: Seq<char>, amou
             (!s1.contains_key(k_stake(d, v)) && i1.stakers@ == im.stakers@.remove(d)) || (has_shares(s1, d, v) && i1.stakers@ == im.stakers@.insert(d))),
     ensures swf(s1)
 {
+    assert(frame2(sm, s1, d, v));
+    lemma_frame2_swf(sm, s1, d, v);
+}
+// a change confined to d's stake entry at v and v's info record keeps the store invariant if the staker set follows the entry
+pub proof fn lemma_frame2_swf(sm: St, s1: St, d: Addr, v: Seq<char>)
+    requires swf(sm), frame2(sm, s1, d, v),
+        get_vinfo(sm, v) matches Ok(Some(im)) && get_vinfo(s1, v) matches Ok(Some(i1)) && (
+            (!s1.contains_key(k_stake(d, v)) && i1.stakers@ == im.stakers@.remove(d)) || (has_shares(s1, d, v) && i1.stakers@ == im.stakers@.insert(d))),
+    ensures swf(s1)
+{
     let im = get_vinfo(sm, v)->Ok_0->0;
     let i1 = get_vinfo(s1, v)->Ok_0->0;
-    assert(get_shares(sm, d, v) is Ok);
-    assert(frame2(sm, s1, d, v));
     assert forall|v2: Seq<char>, d2: Addr| #[trigger] has_staker(s1, v2, d2) implies has_shares(s1, d2, v2) by {
         lemma_frame2(sm, s1, d, v, d2, v2);
         if v2 == v {
